@@ -18,7 +18,7 @@
 
    Abstracted: operators/variables (a rule's condition is one of six observable facts about which
    data-feeding calls happened), body processors (every non-error path of Process*Body ends in
-   Eval), skip/skipAfter/ruleRemove* (C08), ctl changes of the body limits (C07/C10), audit log.
+   Eval), ruleRemove* (C08), ctl changes of the body limits (C07/C10), audit log.
    The field [st_trace] is ghost state: the history of evaluations the theorems talk about. *)
 From Verif Require Import Base.
 Open Scope N_scope.
@@ -38,21 +38,28 @@ Inductive tp_cond := CTrue | CFalse | CConn | CUri | CReqHdr | CRespHdr.
 Inductive tp_dact :=
   | DDeny | DDrop | DRedirect (url : bytes) | DPass | DBlock | DAllow (sc : tp_scope).
 
+(* one element of an action list as parseActions sees it *)
+Inductive tp_item :=
+  | IDis (d : tp_dact)          (* an action of type Disruptive *)
+  | IStatus (n : N)             (* status:N *)
+  | ICtl (m : tp_mode)          (* ctl:ruleEngine=m *)
+  | ISkip (n : N)               (* skip:n, n >= 1 *)
+  | ISkipAfter (m : N)          (* skipAfter:M<m> *)
+  | IInert.                     (* id, phase, log, nolog, msg, tag, setvar, ... : no effect on this model *)
+
 Record tp_raw := mkRaw {
+  rr_mark   : option N;          (* Some m: the entry is "SecMarker M<m>", the other fields are unused *)
   rr_id     : N;
   rr_phase  : N;                 (* 1..5 *)
   rr_cond   : tp_cond;           (* the starter's condition *)
   rr_chain  : option tp_cond;    (* condition of a chained link, if any *)
-  rr_ctl    : option tp_mode;    (* ctl:ruleEngine=.. on the starter *)
-  rr_dacts  : list tp_dact;      (* disruptive-type actions in written order *)
-  rr_status : option N           (* status:N *)
+  rr_acts   : list tp_item       (* the action list in written order *)
 }.
 
-(* SecDefaultAction "phase:p,<disruptive...>,status:N" *)
+(* SecDefaultAction "phase:p,<actions>" *)
 Record tp_default := mkDef {
   df_phase  : N;
-  df_dacts  : list tp_dact;
-  df_status : option N
+  df_acts   : list tp_item
 }.
 
 Record tp_waf := mkWaf {
@@ -68,13 +75,16 @@ Record tp_waf := mkWaf {
 (* ---------------------------------------------------------------------------------- *)
 
 Record tp_rule := mkRule {
+  r_mark   : option N;           (* Some m: SecMarker (phase 0, id 0, no operator, no actions) *)
   r_id     : N;
   r_phase  : N;
   r_cond   : tp_cond;
   r_chain  : option tp_cond;
   r_ctl    : option tp_mode;
   r_act    : option tp_dact;     (* the one disruptive-type action left after parsing *)
-  r_status : N                   (* Rule.DisruptiveStatus, 0 = unset *)
+  r_status : N;                  (* Rule.DisruptiveStatus, 0 = unset *)
+  r_skip   : N;                  (* skip:N, 0 = none *)
+  r_skipafter : option N         (* skipAfter:M *)
 }.
 
 Record tp_cfg := mkCfg {
@@ -84,9 +94,48 @@ Record tp_cfg := mkCfg {
   c_respacc : bool;  c_resplim : Z;  c_respact : tp_lact
 }.
 
-(* appendRuleAction: a later disruptive action replaces the earlier one *)
-Definition tp_last_dact (l : list tp_dact) : option tp_dact :=
-  match rev l with [] => None | a :: _ => Some a end.
+Definition tp_is_dis (a : tp_item) : bool := match a with IDis _ => true | _ => false end.
+Definition tp_is_block_item (a : tp_item) : bool := match a with IDis DBlock => true | _ => false end.
+
+(* res[i] = a *)
+Definition tp_replace_nth {A} (i : nat) (a : A) (l : list A) : list A :=
+  firstn i l ++ a :: skipn (S i) l.
+
+(* appendRuleAction(res, key, val, disruptiveActionIndex): a disruptive action replaces the one at
+   the tracked index when there is one, otherwise it is appended and its index is tracked; any other
+   action is appended and the tracked index is handed back unchanged *)
+Definition tp_append_action (st : list tp_item * option nat) (a : tp_item) : list tp_item * option nat :=
+  let '(res, idx) := st in
+  if tp_is_dis a then
+    match idx with
+    | Some i => (tp_replace_nth i a res, Some i)
+    | None => (res ++ [a], Some (length res))
+    end
+  else (res ++ [a], idx).
+
+(* parseActions *)
+Definition tp_parse_actions (l : list tp_item) : list tp_item :=
+  fst (fold_left tp_append_action l ([], None)).
+
+Fixpoint tp_last_some {A B} (f : A -> option B) (l : list A) (acc : option B) : option B :=
+  match l with
+  | [] => acc
+  | a :: r => tp_last_some f r (match f a with Some b => Some b | None => acc end)
+  end.
+
+Definition tp_dis_of (a : tp_item) : option tp_dact := match a with IDis d => Some d | _ => None end.
+
+(* the disruptive action a default list hands down (mergeActions: "da = action" for each one) *)
+Definition tp_last_dis (l : list tp_item) : option tp_dact := tp_last_some tp_dis_of l None.
+
+(* the first disruptive action of a compiled list (there is exactly one at most, see
+   TxPhaseProofs.parse_one_disruptive) *)
+Fixpoint tp_first_dis (l : list tp_item) : option tp_dact :=
+  match l with
+  | [] => None
+  | IDis d :: _ => Some d
+  | _ :: r => tp_first_dis r
+  end.
 
 Fixpoint tp_find_default (ds : list tp_default) (p : N) : option tp_default :=
   match ds with
@@ -98,30 +147,39 @@ Fixpoint tp_find_default (ds : list tp_default) (p : N) : option tp_default :=
 Definition tp_defaults_for (ds : list tp_default) (p : N) : option tp_default :=
   match tp_find_default ds p with
   | Some d => Some d
-  | None => if p =? 2 then Some (mkDef 2 [DPass] None) else None
+  | None => if p =? 2 then Some (mkDef 2 [IInert; IInert; IDis DPass]) else None
   end.
 
-Definition tp_is_block (a : tp_dact) : bool := match a with DBlock => true | _ => false end.
+(* mergeActions(origin, defaults): the defaults' non-disruptive actions, then the rule's own actions
+   without "block", then the default disruptive action unless the rule has a non-block one *)
+Definition tp_merge (origin defaults : list tp_item) : list tp_item :=
+  let has_da := existsb (fun a => tp_is_dis a && negb (tp_is_block_item a)) origin in
+  filter (fun a => negb (tp_is_dis a)) defaults
+  ++ filter (fun a => negb (tp_is_block_item a)) origin
+  ++ (if has_da then [] else match tp_last_dis defaults with Some d => [IDis d] | None => [] end).
 
-(* applyParsedActions + mergeActions *)
+(* applyParsedActions: parse, merge with the (parsed) defaults of the phase; Init of every action in
+   list order (the last status / ctl / skip / skipAfter of the list is the effective one) *)
+Definition tp_compiled_actions (ds : list tp_default) (r : tp_raw) : list tp_item :=
+  match tp_defaults_for ds (rr_phase r) with
+  | None => tp_parse_actions (rr_acts r)
+  | Some d => tp_merge (tp_parse_actions (rr_acts r)) (tp_parse_actions (df_acts d))
+  end.
+
 Definition tp_compile_rule (ds : list tp_default) (r : tp_raw) : tp_rule :=
-  let own := tp_last_dact (rr_dacts r) in
-  let '(act, status) :=
-    match tp_defaults_for ds (rr_phase r) with
-    | None => (own, match rr_status r with Some n => n | None => 0 end)
-    | Some d =>
-      let act := match own with
-                 | Some a => if tp_is_block a then tp_last_dact (df_dacts d) else Some a
-                 | None => tp_last_dact (df_dacts d)
-                 end in
-      (* default actions are initialised first, the rule's own afterwards: the rule's status wins *)
-      let status := match rr_status r with
-                    | Some n => n
-                    | None => match df_status d with Some n => n | None => 0 end
-                    end in
-      (act, status)
-    end in
-  mkRule (rr_id r) (rr_phase r) (rr_cond r) (rr_chain r) (rr_ctl r) act status.
+  match rr_mark r with
+  | Some m => mkRule (Some m) 0 0 CTrue None None None 0 0 None
+  | None =>
+    let m := tp_compiled_actions ds r in
+    mkRule None (rr_id r) (rr_phase r) (rr_cond r) (rr_chain r)
+      (tp_last_some (fun a => match a with ICtl e => Some e | _ => None end) m None)
+      (tp_first_dis m)
+      (match tp_last_some (fun a => match a with IStatus n => Some n | _ => None end) m None with
+       | Some n => n | None => 0 end)
+      (match tp_last_some (fun a => match a with ISkip n => Some n | _ => None end) m None with
+       | Some n => n | None => 0 end)
+      (tp_last_some (fun a => match a with ISkipAfter k => Some k | _ => None end) m None)
+  end.
 
 (* waf.go: in DetectionOnly both body-limit actions are forced to ProcessPartial *)
 Definition tp_limit_action (e : tp_mode) (a : tp_lact) : tp_lact :=
@@ -163,6 +221,8 @@ Record tp_state := mkSt {
   st_intr    : option tp_intr;       (* tx.interruption *)
   st_dintr   : option tp_intr;       (* tx.detectionOnlyInterruption *)
   st_allow   : option tp_scope;      (* tx.AllowType *)
+  st_skip    : N;                    (* tx.Skip *)
+  st_skipafter : option N;           (* tx.SkipAfter *)
   st_reqlen  : Z;                    (* tx.requestBodyBuffer.length *)
   st_resplen : Z;                    (* tx.responseBodyBuffer.length *)
   st_conn    : bool;                 (* ProcessConnection happened *)
@@ -173,34 +233,38 @@ Record tp_state := mkSt {
 }.
 
 Definition tp_init (c : tp_cfg) : tp_state :=
-  mkSt 0 (c_engine c) None None None 0%Z 0%Z false false false false [].
+  mkSt 0 (c_engine c) None None None 0 None 0%Z 0%Z false false false false [].
 
 Definition set_last (s : tp_state) (p : N) :=
-  mkSt p (st_engine s) (st_intr s) (st_dintr s) (st_allow s) (st_reqlen s) (st_resplen s)
+  mkSt p (st_engine s) (st_intr s) (st_dintr s) (st_allow s) (st_skip s) (st_skipafter s) (st_reqlen s) (st_resplen s)
        (st_conn s) (st_uri s) (st_reqhdr s) (st_resphdr s) (st_trace s).
 Definition set_engine (s : tp_state) (m : tp_mode) :=
-  mkSt (st_last s) m (st_intr s) (st_dintr s) (st_allow s) (st_reqlen s) (st_resplen s)
+  mkSt (st_last s) m (st_intr s) (st_dintr s) (st_allow s) (st_skip s) (st_skipafter s) (st_reqlen s) (st_resplen s)
        (st_conn s) (st_uri s) (st_reqhdr s) (st_resphdr s) (st_trace s).
 Definition set_intr (s : tp_state) (i : option tp_intr) :=
-  mkSt (st_last s) (st_engine s) i (st_dintr s) (st_allow s) (st_reqlen s) (st_resplen s)
+  mkSt (st_last s) (st_engine s) i (st_dintr s) (st_allow s) (st_skip s) (st_skipafter s) (st_reqlen s) (st_resplen s)
        (st_conn s) (st_uri s) (st_reqhdr s) (st_resphdr s) (st_trace s).
 Definition set_dintr (s : tp_state) (i : option tp_intr) :=
-  mkSt (st_last s) (st_engine s) (st_intr s) i (st_allow s) (st_reqlen s) (st_resplen s)
+  mkSt (st_last s) (st_engine s) (st_intr s) i (st_allow s) (st_skip s) (st_skipafter s) (st_reqlen s) (st_resplen s)
        (st_conn s) (st_uri s) (st_reqhdr s) (st_resphdr s) (st_trace s).
 Definition set_allow (s : tp_state) (a : option tp_scope) :=
-  mkSt (st_last s) (st_engine s) (st_intr s) (st_dintr s) a (st_reqlen s) (st_resplen s)
+  mkSt (st_last s) (st_engine s) (st_intr s) (st_dintr s) a (st_skip s) (st_skipafter s) (st_reqlen s) (st_resplen s)
+       (st_conn s) (st_uri s) (st_reqhdr s) (st_resphdr s) (st_trace s).
+(* tx.Skip and tx.SkipAfter *)
+Definition set_flow (s : tp_state) (k : N) (m : option N) :=
+  mkSt (st_last s) (st_engine s) (st_intr s) (st_dintr s) (st_allow s) k m (st_reqlen s) (st_resplen s)
        (st_conn s) (st_uri s) (st_reqhdr s) (st_resphdr s) (st_trace s).
 Definition set_reqlen (s : tp_state) (n : Z) :=
-  mkSt (st_last s) (st_engine s) (st_intr s) (st_dintr s) (st_allow s) n (st_resplen s)
+  mkSt (st_last s) (st_engine s) (st_intr s) (st_dintr s) (st_allow s) (st_skip s) (st_skipafter s) n (st_resplen s)
        (st_conn s) (st_uri s) (st_reqhdr s) (st_resphdr s) (st_trace s).
 Definition set_resplen (s : tp_state) (n : Z) :=
-  mkSt (st_last s) (st_engine s) (st_intr s) (st_dintr s) (st_allow s) (st_reqlen s) n
+  mkSt (st_last s) (st_engine s) (st_intr s) (st_dintr s) (st_allow s) (st_skip s) (st_skipafter s) (st_reqlen s) n
        (st_conn s) (st_uri s) (st_reqhdr s) (st_resphdr s) (st_trace s).
 Definition set_flags (s : tp_state) (a b c d : bool) :=
-  mkSt (st_last s) (st_engine s) (st_intr s) (st_dintr s) (st_allow s) (st_reqlen s) (st_resplen s)
+  mkSt (st_last s) (st_engine s) (st_intr s) (st_dintr s) (st_allow s) (st_skip s) (st_skipafter s) (st_reqlen s) (st_resplen s)
        a b c d (st_trace s).
 Definition add_event (s : tp_state) (e : tp_event) :=
-  mkSt (st_last s) (st_engine s) (st_intr s) (st_dintr s) (st_allow s) (st_reqlen s) (st_resplen s)
+  mkSt (st_last s) (st_engine s) (st_intr s) (st_dintr s) (st_allow s) (st_skip s) (st_skipafter s) (st_reqlen s) (st_resplen s)
        (st_conn s) (st_uri s) (st_reqhdr s) (st_resphdr s) (st_trace s ++ [e]).
 
 Definition is_some {A} (o : option A) : bool := match o with Some _ => true | None => false end.
@@ -240,6 +304,11 @@ Definition tp_exec_dact (r : tp_rule) (s : tp_state) : tp_state :=
   | _ => match tp_intr_of r with Some i => tp_interrupt s i | None => s end   (* pass, block: nothing *)
   end.
 
+(* Evaluate of the flow actions skip:N and skipAfter:M (they do not look at the engine mode) *)
+Definition tp_exec_flow (r : tp_rule) (s : tp_state) : tp_state :=
+  set_flow s (if 0 <? r_skip r then r_skip r else st_skip s)
+             (match r_skipafter r with Some m => Some m | None => st_skipafter s end).
+
 Definition tp_holds (s : tp_state) (c : tp_cond) : bool :=
   match c with
   | CTrue => true | CFalse => false
@@ -252,35 +321,48 @@ Definition tp_eval_rule (p : N) (r : tp_rule) (s : tp_state) : tp_state :=
   if tp_holds s (r_cond r) then
     let s1 := match r_ctl r with Some m => set_engine s m | None => s end in
     if match r_chain r with Some c => tp_holds s1 c | None => true end then
-      add_event (tp_exec_dact r s1) (EvRule p r (RFired (st_engine s1)))
+      add_event (tp_exec_flow r (tp_exec_dact r s1)) (EvRule p r (RFired (st_engine s1)))
     else add_event s1 (EvRule p r RStarterOnly)
   else add_event s (EvRule p r RNoMatch).
 
-(* the RulesLoop of RuleGroup.Eval *)
+Definition tp_mark_eqb (a : option N) (m : N) : bool :=
+  match a with Some k => k =? m | None => false end.
+
+(* the RulesLoop of RuleGroup.Eval.  A SecMarker (phase 0) passes the phase filter of every phase;
+   its evaluation has no effect (no operator, no actions, id 0: no MatchRule) *)
 Fixpoint tp_eval_loop (p : N) (rs : list tp_rule) (s : tp_state) : tp_state :=
   match rs with
   | [] => s
   | r :: rs' =>
     if is_some (st_intr s) && negb (p =? 5) then s                 (* break *)
-    else if negb (r_phase r =? p) then tp_eval_loop p rs' s        (* continue *)
+    else if negb ((r_phase r =? 0) || (r_phase r =? p)) then tp_eval_loop p rs' s   (* continue *)
     else
-      let go := tp_eval_loop p rs' (tp_eval_rule p r s) in
-      match st_allow s with
-      | None => go
-      | Some SPhase => s
-      | Some SRequest =>
-          if p =? 1 then s
-          else if p =? 2 then set_allow s None
-          else go
-      | Some SAll => if p =? 5 then go else s
+      match st_skipafter s with
+      | Some m =>                                                  (* pending skipAfter *)
+          if tp_mark_eqb (r_mark r) m then tp_eval_loop p rs' (set_flow s (st_skip s) None)
+          else tp_eval_loop p rs' s
+      | None =>
+        if 0 <? st_skip s then tp_eval_loop p rs' (set_flow s (st_skip s - 1) None)
+        else
+          let go := tp_eval_loop p rs' (if is_some (r_mark r) then s else tp_eval_rule p r s) in
+          match st_allow s with
+          | None => go
+          | Some SPhase => s
+          | Some SRequest =>
+              if p =? 1 then s
+              else if p =? 2 then set_allow s None
+              else go
+          | Some SAll => if p =? 5 then go else s
+          end
       end
   end.
 
-(* RuleGroup.Eval *)
+(* RuleGroup.Eval: after the loop (however it was left) allow:phase, Skip and SkipAfter are reset *)
 Definition tp_eval_phase (c : tp_cfg) (p : N) (s : tp_state) : tp_state :=
   let s1 := add_event (set_last s p) (EvPhase p) in
   let s2 := tp_eval_loop p (c_rules c) s1 in
-  match st_allow s2 with Some SPhase => set_allow s2 None | _ => s2 end.
+  let s3 := match st_allow s2 with Some SPhase => set_allow s2 None | _ => s2 end in
+  set_flow s3 0 None.
 
 (* setAndReturnBodyLimitInterruption *)
 Definition tp_limit_intr (s : tp_state) (status : N) : tp_state :=
